@@ -40,10 +40,16 @@ BinK == {"and", "or", "eq", "neq", "gt", "lt", "gte", "lte", "add", "sub", "mult
 Wraps(x) ==
   {Un(k, x) : k \in UnK}
   \cup {Bin(k, x, A) : k \in BinK} \cup {Bin(k, A, x) : k \in BinK}
-  \cup {If(x, A, A), If(A, x, A), If(A, A, x), Call(S("fn"), x), Idx(x, FieldI(S("k"))), Idx(x, PosI(0)), Idx(x, PosI(12)),
+  \cup {VecE(<<x, Val(St("z"))>>), Bin("eq", x, Val(St("z"))), MapE(<< <<S("j"), x>>, <<S("k"), Val(St("z"))>> >>)}
+  \cup {If(x, A, A), If(A, x, A), If(A, A, x), Call(S("fn"), x), Idx(x, FieldI(S("k"))), Idx(x, PosI(0)), Idx(x, PosI(12)), Idx(x, PosI(5)),
+         Idx(x, FieldI(S("e5"))), Idx(x, FieldI(S("f"))),
          VecE(<<x>>), VecE(<<A, x>>), MapE(<< <<S("k"), x>> >>), MapE(<< <<S("j"), A>>, <<S("k"), x>> >>)}
 
+\* besides `a`: references and symbols whose names are the prefixes of literal tokens (f, d, i, e, and a keyword-like
+\* name): followed by a numeric index their rendering must not fuse into a number ("f" ".5")
 Init == \/ /\ t \in {A, Sym(S("s")), VecE(<<>>), MapE(<<>>)} /\ lx = <<>> /\ d = 0
+        \/ /\ t \in {Ref(S("f")), Ref(S("d")), Ref(S("i")), Ref(S("e")), Ref(S("x0")), Sym(S("f")), Sym(S("d")), Ref(S("inty")), Ref(S("f1e"))}
+           /\ lx = <<>> /\ d = Depth - 1                     \* wrapped once
         \/ \E i \in 1..Len(LitLexemes) : t = Leaf(LitLexemes[i]) /\ lx = LitLexemes[i] /\ d = 0
 \* literal leaves are wrapped once; the reference leaf up to Depth times (the third level over a reduced set)
 Next == /\ d < (IF lx # <<>> THEN 1 ELSE Depth)
